@@ -162,6 +162,7 @@ pub proof fn lemma_content_rel_plain(s: SriV)
 }
 
 pub broadcast group group_spec_axioms {
+    axiom_data_ok,
     axiom_wf_nonempty,
     axiom_sri_hex,
     axiom_digest_wf,
